@@ -3,12 +3,18 @@
   Lexer level: horizontal trivia is invisible, numbers are `digits(.digits)?` and never absorb an
   adjacent byte, keywords are whole words, a string token is the bytes up to the next same
   quote; escape processing of string literals; and the lifting principle (`PM.run_bisim`): the
-  parser sees its input only through the token source.
+  parser sees its input only through the token source.  Sections 8 and 9: newlines may be
+  inserted between tokens except after `print`/`return`, after a comma of a print list and
+  before `;`; a significant newline may be replaced by `;`.
 -/
 import Jqawk.Lemmas.Lexer
 import Jqawk.Lemmas.PM
 import Jqawk.Lemmas.Param
 import Jqawk.Lemmas.Layout
+import Jqawk.Lemmas.NewlineTokens
+import Jqawk.Lemmas.NewlineLayout
+import Jqawk.Lemmas.NewlineSemiRun
+import Jqawk.Lemmas.NewlineTexts
 import Jqawk.Model.Eval
 
 namespace Jqawk.C13
@@ -688,8 +694,8 @@ example : ResEquiv (parseProgramSrc expectedRuleTable (b!" \t # note" ++ b!"\n{ 
     infix position), not by the lexer state.  The missing piece is therefore a simulation
     relative to the requests the parser actually makes (a refinement of `PM.run_sim` indexed by
     the program), instantiated with "trivia inserted where `Next` is requested".  Newline
-    insertion and `;`-for-newline (which change the newline flags / the token stream) are not
-    covered either. -/
+    insertion and `;`-for-newline (which change the newline flags / the token stream) are the
+    subject of sections 8 and 9 below. -/
 theorem layout_invariant_partial (t t' x : Bytes) (ht : Trivia t x) (ht' : Trivia t' x)
     (p ts p' ts' : Nat) :
     PM.AnsNextE Lexer.SameRest (lexerSrc.next ⟨t ++ x, p, ts⟩) (lexerSrc.next ⟨t' ++ x, p', ts'⟩) := by
@@ -700,5 +706,416 @@ theorem layout_invariant_partial (t t' x : Bytes) (ht : Trivia t x) (ht' : Trivi
 
 example : Lexer.regex ⟨b!" x/", 1, 0⟩ = .ok (⟨.regex, 1, b!" x"⟩, ⟨[], 4, 1⟩) := by rfl
 example : Lexer.regex ⟨b!"x/", 1, 0⟩ = .ok (⟨.regex, 1, b!"x"⟩, ⟨[], 3, 1⟩) := by rfl
+
+/-! ### 8. newline insertion
+
+The parser sees a newline only as the flag "a newline was skipped before this token" that comes
+with every answer to `next` (`Parser.advance` stores it in `didEnd`); the flag is read by
+`atStatementEnd` only.  The theorems below say: raising flags — inserting newlines — does not
+change the parse of a program that parses, except at the positions the property lists:
+
+* directly after `print` or `return`,
+* after a comma of a `print` list — statically over-approximated by "a comma at print level":
+  the innermost bracket `(`/`[`/`{` still open at the comma was opened before a `print` that is
+  itself not enclosed in a later bracket (`Nl.applyTag` keeps the stack of open brackets with a
+  mark "a `print` occurred directly in this bracket"; `Nl.top`).  In a program that parses, the
+  commas at print level are exactly the commas of `print` lists (every other comma is directly
+  inside `(…)`, `[…]`, an object literal or a `match` body, which contain no `print` directly),
+* directly before a `;`.
+
+No other exclusion was needed.  The rule table is arbitrary up to `Nl.TableOK` (no bracket token
+is consumed as a literal/operator/regex opener), which holds for the table of the interpreter. -/
+
+open Nl in
+/-- C13 (newline insertion, the general form): for any rule table with `TableOK`, any fuel, and
+    any two token sources related by a newline-insertion simulation `Rσ` (same tokens; the right
+    source may answer with the newline flag set where the left one does not, but only where
+    `Nl.Allowed` holds in the ghost state: not after `print`/`return`, not after a print-level
+    comma, not before `;`): if the left parse succeeds, the right parse succeeds with the same
+    AST.  Both for programs and for expressions. -/
+theorem newline_insertion_sources (tbl : RuleTable) (hT : TableOK tbl = true) (n : Nat)
+    {σ₁ σ₂ : Type} {src₁ : TokSrc σ₁} {src₂ : TokSrc σ₂} {Rσ : G → σ₁ → σ₂ → Prop}
+    (hS : IsNlSim src₁ src₂ Rσ) (s₁ : σ₁) (s₂ : σ₂) (hs : Rσ G.init s₁ s₂) :
+    (∀ p st, (Parser.parseProgram tbl n PS.init).runWith src₁ s₁ = .ok (p, st) →
+      ∃ st', (Parser.parseProgram tbl n PS.init).runWith src₂ s₂ = .ok (p, st')) ∧
+    (∀ e st, (Parser.parseExpression tbl n PS.init).runWith src₁ s₁ = .ok (e, st) →
+      ∃ st', (Parser.parseExpression tbl n PS.init).runWith src₂ s₂ = .ok (e, st')) :=
+  ⟨fun _ _ hr => parseProgram_run hT n hS hs hr, fun _ _ hr => parseExpression_run hT n hS hs hr⟩
+
+/-- the table of the interpreter satisfies `TableOK`; flagged token lists related by `NlMoreAt`
+    form a newline-insertion simulation (non-vacuity of `newline_insertion_sources`) -/
+example : Nl.TableOK expectedRuleTable = true ∧ Nl.IsNlSim Nl.flagSrc Nl.flagSrc Nl.NlMoreAt :=
+  ⟨by decide, Nl.flagSrc_isNlSim⟩
+
+open Nl in
+/-- C13 (newline insertion on token sequences): `ts` and `ts'` are the same tokens, each with
+    its flag "a newline precedes me"; `NlMoreAt G.init ts ts'` (decidable: `nlMoreB`) says that
+    `ts'` has all newlines of `ts` and possibly more, none of the additional ones directly after
+    `print`/`return`, after a print-level comma, or before `;`.  If `ts` parses to `p`, so does
+    `ts'` — any `TableOK` rule table, any fuel. -/
+theorem newline_insertion_tokens (tbl : RuleTable) (hT : TableOK tbl = true) (n : Nat)
+    (ts ts' : List (Token × Bool)) (h : NlMoreAt G.init ts ts') (p : Program)
+    (hp : parseFlags tbl n ts = .ok p) : parseFlags tbl n ts' = .ok p :=
+  parseFlags_nlMore hT n h hp
+
+open Nl in
+/-- C13 (one newline): a newline may be inserted in front of the `i`-th token whenever
+    `insertableAt G.init ts i` — see `insertable_spec` for what that means. -/
+theorem newline_insertion_single (tbl : RuleTable) (hT : TableOK tbl = true) (n : Nat)
+    (ts : List (Token × Bool)) (i : Nat) (h : insertableAt G.init ts i = true) (p : Program)
+    (hp : parseFlags tbl n ts = .ok p) : parseFlags tbl n (setNl ts i) = .ok p :=
+  parseFlags_nlMore hT n (nlMoreAt_setNl G.init ts i h) hp
+
+open Nl in
+/-- C13: where a newline may be inserted, in closed form.  In front of the `i`-th token
+    (`0 < i`), with `u` the token before it: `u` is not `print` or `return`; `u` is not a comma
+    at print level (the bracket stack `stackOf` of the tokens before `u` has a marked top); and
+    the `i`-th token is not `;`. -/
+theorem insertable_spec (ts : List (Token × Bool)) (i : Nat) (hi : i < ts.length) (h0 : 0 < i) :
+    insertableAt G.init ts i =
+      (let u := (ts[i - 1]'(by omega)).1.tag
+       u != .print && u != .return_ &&
+       !(u == .comma && top (stackOf ((ts.take (i - 1)).map fun x => x.1.tag))) &&
+       (ts[i]'hi).1.tag != .semiColon) := by
+  unfold insertableAt
+  rw [List.getElem?_eq_getElem hi, ghostAt_eq ts i hi h0]
+  rfl
+
+/-! examples: the programs are lexed by `lexE` (every token through `Lexer.nextNN`, as
+    `Parser.advance` does; positions erased so that the two layouts give the same tokens) -/
+
+/-- the parse (as an S-expression dump) of a program text through its flagged token list -/
+def parseText (src : Bytes) : Option Bytes :=
+  dumpParse (Nl.parseFlags expectedRuleTable 300 (lexE src))
+
+/-- a newline between (almost) any two tokens — before `(`, `[`, `else`, `{`, after non-print
+    commas, inside expressions, before the `,` of a print list …: hypothesis of
+    `newline_insertion_tokens` holds, and (as the theorem says) the parses agree -/
+example :
+    Nl.nlMoreB Nl.G.init
+      (lexE b!"BEGIN { x = f(1, 2) + [3, 4][0]; if (x) print x, 1 else print 2 } $1 > 0 { y = {a: 1, b: 2} }")
+      (lexE b!"BEGIN\n{\nx\n=\nf\n(\n1\n,\n2\n)\n+\n[\n3\n,\n4\n]\n[\n0\n];\nif\n(\nx\n)\nprint x\n, 1\nelse\nprint 2\n}\n$1\n>\n0\n{\ny\n=\n{\na\n:\n1\n,\nb\n:\n2\n}\n}\n")
+      = true ∧
+    (parseText b!"BEGIN { x = f(1, 2) + [3, 4][0]; if (x) print x, 1 else print 2 } $1 > 0 { y = {a: 1, b: 2} }").isSome = true ∧
+    parseText b!"BEGIN { x = f(1, 2) + [3, 4][0]; if (x) print x, 1 else print 2 } $1 > 0 { y = {a: 1, b: 2} }" =
+    parseText b!"BEGIN\n{\nx\n=\nf\n(\n1\n,\n2\n)\n+\n[\n3\n,\n4\n]\n[\n0\n];\nif\n(\nx\n)\nprint x\n, 1\nelse\nprint 2\n}\n$1\n>\n0\n{\ny\n=\n{\na\n:\n1\n,\nb\n:\n2\n}\n}\n" := by
+  decide +kernel
+
+/-- F1: a newline before `(`, `[`, `-`, `++` does not end the statement — it is one of the
+    newlines that may be inserted, and the parse (a call, an index, a subtraction, a postfix
+    increment) is the same as without it -/
+example :
+    Nl.nlMoreB Nl.G.init (lexE b!"BEGIN { x = f (1); y = a [0]; z = 1 - 2; w ++ }")
+      (lexE b!"BEGIN { x = f\n(1); y = a\n[0]; z = 1\n- 2; w\n++ }") = true ∧
+    (parseText b!"BEGIN { x = f (1); y = a [0]; z = 1 - 2; w ++ }").isSome = true ∧
+    parseText b!"BEGIN { x = f (1); y = a [0]; z = 1 - 2; w ++ }" =
+      parseText b!"BEGIN { x = f\n(1); y = a\n[0]; z = 1\n- 2; w\n++ }" := by
+  decide +kernel
+
+/-- each exclusion is needed, 1: a newline directly after `print` (`print` alone, then the
+    expression statement `1`) — not related by `nlMoreB`, and the parse changes -/
+example :
+    Nl.nlMoreB Nl.G.init (lexE b!"BEGIN { print 1 }") (lexE b!"BEGIN { print\n1 }") = false ∧
+    (parseText b!"BEGIN { print 1 }").isSome = true ∧ (parseText b!"BEGIN { print\n1 }").isSome = true ∧
+    parseText b!"BEGIN { print 1 }" ≠ parseText b!"BEGIN { print\n1 }" := by
+  decide +kernel
+
+/-- … 2: directly after `return` -/
+example :
+    Nl.nlMoreB Nl.G.init (lexE b!"function f() { return 1 }") (lexE b!"function f() { return\n1 }") = false ∧
+    (parseText b!"function f() { return 1 }").isSome = true ∧
+    (parseText b!"function f() { return\n1 }").isSome = true ∧
+    parseText b!"function f() { return 1 }" ≠ parseText b!"function f() { return\n1 }" := by
+  decide +kernel
+
+/-- … 3: after a comma of a print list (the statement ends after the comma) — whereas after a
+    comma inside brackets within the same print statement a newline is fine -/
+example :
+    Nl.nlMoreB Nl.G.init (lexE b!"BEGIN { print 1, 2 }") (lexE b!"BEGIN { print 1,\n2 }") = false ∧
+    (parseText b!"BEGIN { print 1, 2 }").isSome = true ∧ (parseText b!"BEGIN { print 1,\n2 }").isSome = true ∧
+    parseText b!"BEGIN { print 1, 2 }" ≠ parseText b!"BEGIN { print 1,\n2 }" ∧
+    Nl.nlMoreB Nl.G.init (lexE b!"BEGIN { print f(1, 2), [3, 4] }")
+      (lexE b!"BEGIN { print f(1,\n2), [3,\n4] }") = true ∧
+    parseText b!"BEGIN { print f(1, 2), [3, 4] }" = parseText b!"BEGIN { print f(1,\n2), [3,\n4] }" := by
+  decide +kernel
+
+/-- … 4: directly before `;` (the newline ends the statement, the `;` is then not consumed and
+    the next statement starts with it: a syntax error) -/
+example :
+    Nl.nlMoreB Nl.G.init (lexE b!"BEGIN { x = 1; y = 2 }") (lexE b!"BEGIN { x = 1\n; y = 2 }") = false ∧
+    (parseText b!"BEGIN { x = 1; y = 2 }").isSome = true ∧
+    parseText b!"BEGIN { x = 1\n; y = 2 }" = none := by
+  decide +kernel
+
+/-- the hypothesis of `newline_insertion_single` on a concrete program: in front of token 7
+    (the `2` after the comma of `f(1, 2)`) a newline may be inserted; in front of token 3 (after
+    `print`) not -/
+example : Nl.insertableAt Nl.G.init (lexE b!"BEGIN { print f(1, 2) }") 7 = true ∧
+    Nl.insertableAt Nl.G.init (lexE b!"BEGIN { print f(1, 2) }") 3 = false ∧
+    (lexE b!"BEGIN { print f(1, 2) }").length = 11 := by
+  decide +kernel
+
+/-! #### up to positions, and the lexer -/
+
+open Nl in
+/-- two lexer states are newline-insertion equivalent: some newline-insertion simulation up to
+    positions relates them (the right state answers every request sequence with the same tokens
+    up to positions, and newline flags raised only where allowed) -/
+def NlTokEquiv (s₁ s₂ : LexState) : Prop :=
+  ∃ Rσ : G → LexState → LexState → Prop, IsNlSimE lexerSrc lexerSrc Rσ ∧ Rσ G.init s₁ s₂
+
+/-- C13 (newline insertion, program texts, the lifting): if the lexer state of `src₂` is
+    newline-insertion equivalent to that of `src₁` (and `src₂` is not shorter, so that it gets
+    at least as much fuel) and `src₁` parses, then `src₂` parses to the same AST up to positions.
+    Like `layout_invariant`, this reduces the property to a statement about the two token
+    streams; `leading_newlines_invariant` is an instance for real texts, `nextNN_vtrivia_flag`
+    the lexer fact for an arbitrary position. -/
+theorem newline_layout_invariant (tbl : RuleTable) (hT : Nl.TableOK tbl = true) (src₁ src₂ : Bytes)
+    (hlen : src₁.length ≤ src₂.length)
+    (h : NlTokEquiv (LexState.init src₁) (LexState.init src₂)) (p : Program)
+    (hp : parseProgramSrc tbl src₁ = .ok p) :
+    ∃ p', parseProgramSrc tbl src₂ = .ok p' ∧ erase p = erase p' := by
+  obtain ⟨Rσ, hS, hs⟩ := h
+  rw [parseProgramSrc_eq] at hp ⊢
+  rw [run_eq_runWith] at hp ⊢
+  cases hr : (Parser.parseProgram tbl (parserFuel src₁) PS.init).runWith lexerSrc (LexState.init src₁) with
+  | ok r =>
+    obtain ⟨p₀, st⟩ := r
+    rw [hr] at hp
+    simp only [stripPS, ParseRes.ok.injEq] at hp
+    subst hp
+    obtain ⟨p', st', h', he⟩ := Nl.parseProgram_runE hT (parserFuel src₁) (parserFuel src₂)
+      (by unfold parserFuel; omega) hS hs hr
+    exact ⟨p', by rw [h']; rfl, he⟩
+  | syntaxErr e => rw [hr] at hp; cases hp
+  | oof => rw [hr] at hp; cases hp
+
+/-- "same unread text" is an instance (non-vacuity of `newline_layout_invariant`) -/
+example : NlTokEquiv ⟨b!"x = 1", 0, 0⟩ ⟨b!"x = 1", 40, 7⟩ :=
+  ⟨fun _ => Lexer.SameRest,
+   { next := fun g s₁ s₂ h t nl s₁' h₁ => Nl.sameRest_nlSimE_next g s₁ s₂ h t nl s₁' h₁
+     regex := fun _ s₁ s₂ h t s₁' h₁ => Nl.sameRest_nlSimE_regex s₁ s₂ h t s₁' h₁ }, rfl⟩
+
+/-- C13 (the lexer fact behind "a newline, alone or after a comment, between two tokens"):
+    vertical trivia `w` — blanks, tabs, CRs, `#` comments running up to a newline, newlines — in
+    front of ANY unread text `x` changes what the parser's `advance` receives only in positions
+    and in the newline flag, which is set iff it was set or `w` contains a newline: same token up
+    to its position, same error message, successor states with the same unread text (hence
+    token-equivalent for good, `tokEquiv_of_sameRest`). -/
+theorem nextNN_vtrivia_flag (w x : Bytes) (hw : Lexer.VTrivia w x) (p ts p' ts' : Nat) (nl : Bool) :
+    PM.AnsNextE Lexer.SameRest (Lexer.nextNN ((w ++ x).length + 1) ⟨w ++ x, p, ts⟩ nl)
+      (Lexer.nextNN (x.length + 1) ⟨x, p', ts'⟩ (nl || w.contains 10)) :=
+  Lexer.nextNN_vtrivia hw p ts p' ts' nl
+
+example : Lexer.VTrivia b!" # note\n\t\n" b!"x" :=
+  .blank _ _ _ rfl (.comment b!" note" _ _ (by decide) (.inr rfl)
+    (.newline _ _ (.blank _ _ _ rfl (.newline _ _ (.nil _)))))
+
+example : Lexer.nextNN 20 ⟨b!" # note\n\t\nx", 0, 0⟩ false = .ok (⟨.ident, 10, b!"x"⟩, true, ⟨[], 11, 10⟩) ∧
+    Lexer.nextNN 20 ⟨b!"x", 0, 0⟩ false = .ok (⟨.ident, 0, b!"x"⟩, false, ⟨[], 1, 0⟩) := ⟨by rfl, by rfl⟩
+
+/-- C13 (newline insertion, program texts, an instance): vertical trivia — newlines, blank lines,
+    comment lines — in front of a program (whose first token is not `;`): if the program parses,
+    the longer text parses to the same AST up to positions. -/
+theorem leading_newlines_invariant (tbl : RuleTable) (hT : Nl.TableOK tbl = true) (w src : Bytes)
+    (hw : Lexer.VTrivia w src)
+    (hsemi : ∀ t nl s', Lexer.nextNN (src.length + 1) (LexState.init src) false = .ok (t, nl, s') →
+      t.tag ≠ .semiColon)
+    (p : Program) (hp : parseProgramSrc tbl src = .ok p) :
+    ∃ p', parseProgramSrc tbl (w ++ src) = .ok p' ∧ erase p = erase p' := by
+  rw [parseProgramSrc_eq] at hp ⊢
+  cases hr : (Parser.parseProgram tbl (parserFuel src) PS.init).run (LexState.init src) with
+  | ok r =>
+    obtain ⟨p₀, st⟩ := r
+    rw [hr] at hp
+    simp only [stripPS, ParseRes.ok.injEq] at hp
+    subst hp
+    obtain ⟨p', st', h', he⟩ := Nl.parseProgram_leading hT hw hsemi (parserFuel src)
+      (parserFuel (w ++ src)) (by unfold parserFuel; simp; omega) hr
+    exact ⟨p', by rw [h']; rfl, he⟩
+  | syntaxErr e => rw [hr] at hp; cases hp
+  | oof => rw [hr] at hp; cases hp
+
+example : Lexer.VTrivia b!"# header\n\n" b!"BEGIN { print 1 }" ∧
+    (∀ t nl s', Lexer.nextNN (b!"BEGIN { print 1 }".length + 1) (LexState.init b!"BEGIN { print 1 }") false
+      = .ok (t, nl, s') → t.tag ≠ .semiColon) := by
+  refine ⟨.comment b!" header" _ _ (by decide) (.inr rfl) (.newline _ _ (.newline _ _ (.nil _))), ?_⟩
+  intro t nl s' h
+  have : Lexer.nextNN (b!"BEGIN { print 1 }".length + 1) (LexState.init b!"BEGIN { print 1 }") false
+      = .ok (⟨.begin_, 0, []⟩, false, ⟨b!" { print 1 }", 5, 0⟩) := by rfl
+  rw [this] at h; cases h; decide
+
+/-- C13 (newline insertion, program texts — what is proved at the level of bytes): for two
+    texts without a `/` byte (then no regex literal can be requested and the token sequence of
+    a text does not depend on the parser), whose flagged token sequences `ts₁`, `ts₂` — computed
+    by the lexer alone (`lexFlags`: every token through `Lexer.nextNN`, positions erased) — are
+    related by `NlMoreAt` (same tokens; `src₂` has the newlines of `src₁` and possibly more, none
+    after `print`/`return`/a print-level comma or before `;`): if `src₁` parses, `src₂` parses to
+    the same AST up to positions.  The hypothesis on the two texts is decidable (`nlMoreB`).
+
+    Missing for the full clause "a newline byte (alone or after a comment) may be inserted
+    between any two tokens": (1) texts with `/`: which bytes are tokens then depends on the
+    parser's prefix/infix decision, so the relation between the two texts must follow the run (as
+    `newline_layout_invariant` allows, but no instance is constructed); (2) a proof that
+    inserting vertical trivia at a token boundary of `src₁` yields `NlMoreAt`-related token
+    sequences — the step at the boundary is `nextNN_vtrivia_flag`; what is not proved is that
+    the tokens lexed BEFORE the boundary are unchanged (the lexer looks ahead one or two bytes:
+    `=`/`==`, `1`/`1.5`, identifier characters), i.e. that the boundary stays a boundary. -/
+theorem newline_insertion_texts_partial (tbl : RuleTable) (hT : Nl.TableOK tbl = true)
+    (src₁ src₂ : Bytes) (h₁ : (47 : UInt8) ∉ src₁) (h₂ : (47 : UInt8) ∉ src₂)
+    (hlen : src₁.length ≤ src₂.length) (ts₁ ts₂ : List (Token × Bool))
+    (hl₁ : lexFlags (src₁.length + 2) (LexState.init src₁) = some ts₁)
+    (hl₂ : lexFlags (src₂.length + 2) (LexState.init src₂) = some ts₂)
+    (hm : Nl.NlMoreAt Nl.G.init ts₁ ts₂) (p : Program) (hp : parseProgramSrc tbl src₁ = .ok p) :
+    ∃ p', parseProgramSrc tbl src₂ = .ok p' ∧ erase p = erase p' := by
+  rw [parseProgramSrc_eq, run_eq_runWith] at hp ⊢
+  have hn : parserFuel src₁ ≤ parserFuel src₂ := by unfold parserFuel; omega
+  cases hr : (Parser.parseProgram tbl (parserFuel src₁) PS.init).runWith lexerSrc (LexState.init src₁) with
+  | syntaxErr e => rw [hr] at hp; cases hp
+  | oof => rw [hr] at hp; cases hp
+  | ok r =>
+    obtain ⟨p₀, st⟩ := r
+    rw [hr] at hp
+    simp only [stripPS, ParseRes.ok.injEq] at hp
+    subst hp
+    -- the text `src₁` and its token list
+    have s1 := PM.run_sim Nl.lexRel_isSimE
+      (parseProgram_sim tbl (parserFuel src₁) (parserFuel src₁) (Nat.le_refl _) PS.init PS.init rfl)
+      (LexState.init src₁) ts₁ ⟨h₁, .inl ⟨_, hl₁⟩⟩
+    rw [hr] at s1
+    cases hm₁ : (Parser.parseProgram tbl (parserFuel src₁) PS.init).runWith Nl.flagSrcNR ts₁ with
+    | syntaxErr e => rw [hm₁] at s1; cases s1
+    | oof => rw [hm₁] at s1; cases s1
+    | ok r₁ =>
+      obtain ⟨p₁, st₁⟩ := r₁
+      rw [hm₁] at s1
+      cases s1 with
+      | ok e1 =>
+        simp only [erase_pair, Prod.mk.injEq] at e1
+        -- the newlines
+        obtain ⟨st₂, hm₂⟩ := Nl.parseProgram_run hT _ Nl.flagSrcNR_isNlSim hm hm₁
+        -- the token list of `src₂` and the text
+        have s3 := PM.run_sim (isSimE_symm Nl.lexRel_isSimE)
+          (parseProgram_sim tbl (parserFuel src₁) (parserFuel src₂) hn PS.init PS.init rfl)
+          ts₂ (LexState.init src₂) ⟨h₂, .inl ⟨_, hl₂⟩⟩
+        rw [hm₂] at s3
+        cases hm₃ : (Parser.parseProgram tbl (parserFuel src₂) PS.init).runWith lexerSrc
+            (LexState.init src₂) with
+        | syntaxErr e => rw [hm₃] at s3; cases s3
+        | oof => rw [hm₃] at s3; cases s3
+        | ok r₃ =>
+          obtain ⟨p₃, st₃⟩ := r₃
+          rw [hm₃] at s3
+          cases s3 with
+          | ok e3 =>
+            simp only [erase_pair, Prod.mk.injEq] at e3
+            exact ⟨p₃, rfl, e1.1.trans e3.1⟩
+
+/-- the hypotheses on two concrete texts (comment line, blank line, newlines inside a call and
+    an array, before `else` and `{`), checked by evaluation -/
+example :
+    (47 : UInt8) ∉ b!"BEGIN { x = f(1, 2); if (x) print [x, 1] else { print 2 } }" ∧
+    (47 : UInt8) ∉ b!"# program\n\nBEGIN\n{ x = f(1,\n 2); # call\n if (x)\n print [x,\n 1]\n else\n {\n print 2 } }\n" ∧
+    (∃ ts₁ ts₂,
+      lexFlags (b!"BEGIN { x = f(1, 2); if (x) print [x, 1] else { print 2 } }".length + 2)
+        (LexState.init b!"BEGIN { x = f(1, 2); if (x) print [x, 1] else { print 2 } }") = some ts₁ ∧
+      lexFlags (b!"# program\n\nBEGIN\n{ x = f(1,\n 2); # call\n if (x)\n print [x,\n 1]\n else\n {\n print 2 } }\n".length + 2)
+        (LexState.init b!"# program\n\nBEGIN\n{ x = f(1,\n 2); # call\n if (x)\n print [x,\n 1]\n else\n {\n print 2 } }\n") = some ts₂ ∧
+      Nl.nlMoreB Nl.G.init ts₁ ts₂ = true) := by
+  refine ⟨by decide +kernel, by decide +kernel, _, _, rfl, rfl, ?_⟩
+  decide +kernel
+
+/-! ### 9. `;` for a newline
+
+Three token sequences are compared: `A ++ (t₀, newline) :: B` (the program, with a newline in
+front of the token `t₀`), `A ++ t₀ :: B` (the newline removed) and `A ++ ; :: t₀ :: B` (a `;`
+token in its place).  The theorem: if the first parses to `p`, then the second does (the newline
+was not significant: it did not separate two statements, or the statement before it ended in
+`}` — `block()` and `match` set `didEndStatement` themselves) or the third does.  In other
+words a newline that matters can be replaced by `;`.  Assumptions: `t₀` is not `;`, `}`, `)`
+or the end of the text (a newline there ends a statement but does not separate two), and the
+rule table gives `;` precedence 0 (true for the table of the interpreter: `;` has no rule). -/
+
+open Nl in
+/-- C13 (`;` for a newline): if the token sequence with a newline in front of `t₀` parses to
+    `p`, then so does the sequence without this newline, or the sequence with a `;` (unflagged;
+    `t₀` with any flag `b`, e.g. none) in its place.  Any rule table in which `;` has
+    precedence 0, any fuel. -/
+theorem semicolon_for_newline (tbl : RuleTable) (hprec : (lookupRule tbl .semiColon).prec = 0)
+    (n : Nat) (t₀ semi : Token) (H : Semi.Hyp t₀ semi) (A B : List (Token × Bool)) (b : Bool)
+    (p : Program) (hp : parseFlags tbl n (A ++ (t₀, true) :: B) = .ok p) :
+    parseFlags tbl n (A ++ (t₀, false) :: B) = .ok p ∨
+    parseFlags tbl n (A ++ (semi, false) :: (t₀, b) :: B) = .ok p :=
+  Semi.parseFlags_semi H hprec n A B b p hp
+
+open Nl in
+/-- C13 (`;` for a newline, as the property words it): a newline that is significant — without
+    it the program does not parse to the same AST, e.g. is a syntax error, which is the case
+    when it separates two statements the first of which does not end in `}` — may be replaced
+    by `;`. -/
+theorem semicolon_for_significant_newline (tbl : RuleTable)
+    (hprec : (lookupRule tbl .semiColon).prec = 0) (n : Nat) (t₀ semi : Token)
+    (H : Semi.Hyp t₀ semi) (A B : List (Token × Bool)) (b : Bool) (p : Program)
+    (hp : parseFlags tbl n (A ++ (t₀, true) :: B) = .ok p)
+    (hsig : parseFlags tbl n (A ++ (t₀, false) :: B) ≠ .ok p) :
+    parseFlags tbl n (A ++ (semi, false) :: (t₀, b) :: B) = .ok p :=
+  (semicolon_for_newline tbl hprec n t₀ semi H A B b p hp).resolve_left hsig
+
+/-- the hypotheses hold for the table of the interpreter and, e.g., an identifier after the
+    newline -/
+example : (lookupRule expectedRuleTable .semiColon).prec = 0 ∧
+    Semi.Hyp ⟨.ident, 0, b!"y"⟩ ⟨.semiColon, 0, []⟩ :=
+  ⟨by decide, ⟨rfl, by decide, by decide, by decide, by decide⟩⟩
+
+/-- the three token sequences of the theorem for the newline in front of the token with index `i`
+    of a text (`;` token with erased position, as `lexE` produces it) -/
+def semiTriple (src : Bytes) (i : Nat) : List (Token × Bool) × List (Token × Bool) × List (Token × Bool) :=
+  let ts := lexE src
+  let t₀ := (ts.getD i (eofTok, false)).1
+  (ts.take i ++ (t₀, true) :: ts.drop (i + 1),
+   ts.take i ++ (t₀, false) :: ts.drop (i + 1),
+   ts.take i ++ (⟨.semiColon, 0, []⟩, false) :: (t₀, false) :: ts.drop (i + 1))
+
+def parseToks' (ts : List (Token × Bool)) : Option Bytes :=
+  dumpParse (Nl.parseFlags expectedRuleTable 300 ts)
+
+/-- a newline that separates two statements: the sequences of the theorem are the token
+    sequences of the three texts; without the newline the program is a syntax error; with `;`
+    it parses to the same AST -/
+example :
+    (semiTriple b!"BEGIN { x = 1\ny = 2 }" 5).1 = lexE b!"BEGIN { x = 1\ny = 2 }" ∧
+    (semiTriple b!"BEGIN { x = 1\ny = 2 }" 5).2.1 = lexE b!"BEGIN { x = 1 y = 2 }" ∧
+    (semiTriple b!"BEGIN { x = 1\ny = 2 }" 5).2.2 = lexE b!"BEGIN { x = 1;y = 2 }" ∧
+    (parseText b!"BEGIN { x = 1\ny = 2 }").isSome = true ∧
+    parseText b!"BEGIN { x = 1 y = 2 }" = none ∧
+    parseText b!"BEGIN { x = 1;y = 2 }" = parseText b!"BEGIN { x = 1\ny = 2 }" := by
+  decide +kernel
+
+/-- "unless the first ends in `}`": after `if (x) { }` the newline is not significant (first
+    alternative of the theorem), and replacing it by `;` gives a syntax error — the exclusion is
+    needed -/
+example :
+    (parseText b!"BEGIN { if (x) { }\ny = 2 }").isSome = true ∧
+    parseText b!"BEGIN { if (x) { } y = 2 }" = parseText b!"BEGIN { if (x) { }\ny = 2 }" ∧
+    parseText b!"BEGIN { if (x) { };y = 2 }" = none := by
+  decide +kernel
+
+/-- F1 again: a newline in front of `-` does not separate two statements (first alternative),
+    and a `;` there changes the program -/
+example :
+    (parseText b!"BEGIN { x = 1\n- 2 }").isSome = true ∧
+    parseText b!"BEGIN { x = 1 - 2 }" = parseText b!"BEGIN { x = 1\n- 2 }" ∧
+    (parseText b!"BEGIN { x = 1;- 2 }").isSome = true ∧
+    parseText b!"BEGIN { x = 1;- 2 }" ≠ parseText b!"BEGIN { x = 1\n- 2 }" := by
+  decide +kernel
+
+/-- after `print` and after `return` a newline is significant, and `;` does the same -/
+example :
+    parseText b!"BEGIN { print;1 }" = parseText b!"BEGIN { print\n1 }" ∧
+    parseText b!"BEGIN { print 1 }" ≠ parseText b!"BEGIN { print\n1 }" ∧
+    (parseText b!"BEGIN { print\n1 }").isSome = true ∧
+    parseText b!"function f() { return;1 }" = parseText b!"function f() { return\n1 }" ∧
+    (parseText b!"function f() { return\n1 }").isSome = true := by
+  decide +kernel
 
 end Jqawk.C13
